@@ -14,7 +14,8 @@ RULE = ("seeded scenarios: 1-2 scripted clients send 2-12 requests (7 methods x 
         "ConstructionRenderableError subclass with and without custom text, raise arbitrary exceptions carrying a secret "
         "marker, return None/str/int/tuple, RenderableError whose to_message raises or returns None, each completing "
         "before or after EMPTY_ACK_DELAY; unknown paths, unimplemented methods, a context without a site; "
-        "server->client loss/dup/delay so separate responses get retransmitted, client-side repeats of CON requests. "
+        "a handler that waits on a future nothing else references strongly while the garbage collector (off "
+        "otherwise) runs at scenario-chosen instants; server->client loss/dup/delay so separate responses get retransmitted, client-side repeats of CON requests. "
         "Systematic: zoo x method x CON/NON one at a time. Non-trivial = a failing handler kind or a fault occurred; "
         "distinct = distinct event-sequence hash.")
 COMPONENTS_REAL = ["aiocoap.pipe (error_to_message, run_driving_pipe)", "aiocoap.protocol.Context.render_to_pipe",
@@ -24,7 +25,7 @@ COMPONENTS_STUB = ["UDP socket (SimSocket)", "scripted clients (reference codec)
 ASSUMPTIONS = ["a renderable error's own code and message are its class/instance attributes `code` and `message`",
                "'bare 5.00' is taken to mean code 5.00 with an empty payload"]
 EXPECTED_PROBES = ["renderable_error", "generic_exception", "wrong_return_type", "failing_renderer", "slow_failure",
-                   "default_code", "not_found", "method_not_allowed", "not_a_server", "concurrent_neighbours"]
+                   "default_code", "not_found", "method_not_allowed", "not_a_server", "concurrent_neighbours", "gc_while_handler_waits"]
 
 SECRET = "SECRET-9f3a-MARKER"
 METHODS = {"GET": 1, "POST": 2, "PUT": 3, "DELETE": 4, "FETCH": 5, "PATCH": 6, "IPATCH": 7}
@@ -36,20 +37,22 @@ RENDERABLE = ['BadGateway', 'BadOption', 'BadRequest', 'Conflict', 'Construction
 RET_CODES = [rc.CONTENT, rc.CREATED, rc.CHANGED, rc.DELETED, rc.VALID, rc.BAD_REQUEST, rc.code(5, 3), rc.code(4, 29)]
 KINDS = ["ret_code", "ret_nocode", "raise_renderable", "raise_renderable_text", "raise_generic", "ret_none", "ret_str",
          "ret_int", "ret_tuple", "renderer_raises", "renderer_none", "missing", "get_only", "ret_unserializable",
-         "raw_render_nonmessage"]
+         "raw_render_nonmessage", "wait_weak"]
 
 
 def gen_req(r, i):
     kind = r.weighted([(3, "ret_code"), (3, "ret_nocode"), (3, "raise_renderable"), (2, "raise_renderable_text"),
                        (3, "raise_generic"), (1, "ret_none"), (1, "ret_str"), (1, "ret_int"), (1, "ret_tuple"),
                        (2, "renderer_raises"), (1, "renderer_none"), (2, "missing"), (2, "get_only"),
-                       (2, "ret_unserializable"), (1, "raw_render_nonmessage")])
+                       (2, "ret_unserializable"), (1, "raw_render_nonmessage"), (2, "wait_weak")])
     q = {"id": i, "kind": kind, "method": r.choice(list(METHODS)), "con": r.chance(0.7), "slow": r.chance(0.35),
          "client": 0}
     if kind == "ret_code":
         q["code"] = r.choice(RET_CODES)
     if kind.startswith("raise_renderable"):
         q["cls"] = r.choice(RENDERABLE)
+    if kind == "wait_weak":
+        q["wake"] = r.choice([0.01, 0.2, 0.5, 2.0, 5.0])
     return q
 
 
@@ -64,8 +67,10 @@ def gen(r, tier):
         q["client"] = r.randrange(2)
         q["repeat"] = round(r.choice([0.05, 0.15, 0.5]), 3) if (q["con"] and r.chance(0.15)) else None
         reqs.append(q)
+    # the garbage collector is part of the schedule: it is off while a run proceeds and runs exactly at these times
+    gc_at = sorted(round(r.uniform(0, t + 3), 3) for _ in range(r.choice([0, 1, 2, 4])))
     return {"reqs": reqs, "nosite": r.chance(0.05), "net": faults.swarm(r, kinds=("drop", "dup", "delay")),
-            "stall": r.chance(0.1)}
+            "stall": r.chance(0.1), "gc_at": gc_at}
 
 
 def systematic(tier):
@@ -91,10 +96,13 @@ def systematic(tier):
                             q["code"] = v
                         if kind.startswith("raise_renderable"):
                             q["cls"] = v
+                        if kind == "wait_weak":
+                            q["wake"] = 1.0
                         # a well-behaved neighbour before, during and after
                         nb = [{"id": k, "kind": "ret_nocode", "method": "GET", "con": True, "slow": k == 2, "client": 1,
                                "t": tt, "repeat": None} for k, tt in ((1, 0.0), (2, 0.0), (3, 2.0))]
-                        out.append({"reqs": [q] + nb, "nosite": False, "net": {}, "stall": False})
+                        out.append({"reqs": [q] + nb, "nosite": False, "net": {}, "stall": False,
+                                    "gc_at": [0.5] if kind == "wait_weak" else []})
     for con in (True, False):
         out.append({"reqs": [{"id": 0, "kind": "ret_nocode", "method": "GET", "con": con, "slow": False, "client": 0,
                               "t": 0.0, "repeat": None}], "nosite": True, "net": {}, "stall": False})
@@ -155,6 +163,24 @@ def execute(sim, scn):
             return None
 
     invocations = []
+    import gc
+    import weakref
+    waiters = {}  # request id -> weak reference to the future its handler waits for
+
+    def wake(rid):
+        ref = waiters.get(rid)
+        fut = ref() if ref is not None else None
+        if fut is not None and not fut.done():
+            fut.set_result(None)
+        else:
+            # the handler has not started yet (its request is still on its way): do not wait at all then
+            waiters[rid] = None
+
+    def collect():
+        sim.probe("gc_ran")
+        if any(r is not None and r() is not None for r in waiters.values()):
+            sim.probe("gc_while_handler_waits")
+        gc.collect()
 
     def make_exc(q):
         cls = getattr(error, q["cls"])
@@ -195,6 +221,15 @@ def execute(sim, scn):
             if k == "ret_unserializable":
                 # a Message object all right, but one that cannot be put on the wire (text payload)
                 return Message(payload=SECRET + " text payload")
+            if k == "wait_weak":
+                # waits for something that nothing but this very coroutine holds on to strongly (an event source
+                # that references its listeners weakly): the request is alive only through the library's own books
+                if rid in waiters and waiters[rid] is None:
+                    return Message(payload=b"P%d" % rid)
+                fut = loop.create_future()
+                waiters[rid] = weakref.ref(fut)
+                await fut
+                return Message(payload=b"P%d" % rid)
             if k == "renderer_raises":
                 raise BadRenderer("raise")
             if k == "renderer_none":
@@ -253,8 +288,12 @@ def execute(sim, scn):
              "token": token, "options": [(rc.URI_PATH, path), (rc.URI_QUERY, b"r=%d" % q["id"])], "payload": b""}
         raw = rc.encode(m)
         cl.send(srv, raw=raw, fate=["at", q["t"]])
+        if q["kind"] == "wait_weak":
+            loop.at(q["t"] + (0.3 if q["slow"] else 0) + q["wake"], wake, q["id"])
         if q.get("repeat"):
             cl.send(srv, raw=raw, fate=["at", q["t"] + q["repeat"]])
+    for tg in scn.get("gc_at", []):
+        loop.at(tg, collect)
     if len(scn["reqs"]) > 1:
         ts = sorted(q["t"] for q in scn["reqs"])
         if any(b - a < 0.3 for a, b in zip(ts, ts[1:])):
@@ -320,7 +359,7 @@ def execute(sim, scn):
                 exp_code = rc.METHOD_NOT_ALLOWED
         elif k == "ret_code":
             exp_code, exp_payload = q["code"], b"P%d" % q["id"]
-        elif k == "ret_nocode":
+        elif k in ("ret_nocode", "wait_weak"):
             sim.probe("default_code")
             exp_code = {"GET": rc.CONTENT, "FETCH": rc.CONTENT, "DELETE": rc.DELETED}.get(q["method"], rc.CHANGED)
             exp_payload = b"P%d" % q["id"]
